@@ -423,10 +423,14 @@ def task_removes_its_output(chk):
     `cond where` and `cond archive` were then handed a path to nothing.)"""
     import implrun
 
-    variants = {"removed": "rm -rf $COND_OUT; echo removed", "replaced by a file": "rm -rf $COND_OUT; echo x > $COND_OUT",
-                "removed, sequential dependents": "rm -rf $COND_OUT"}
-    for name, script in variants.items():
-        cond = 'run_experiment(name="e", run="%s")\nrun_command(name="after", run="ls $COND_DEPS > $COND_OUT/seen", deps=[":e"])\n' % script
+    # the last two: the directory stays, but the task leaves something under the name of a record file that cannot be written
+    # over -- "... together with its args.json/options.json records": no version without them (seed C06/j)
+    variants = {"removed": ("rm -rf $COND_OUT; echo removed", ""), "replaced by a file": ("rm -rf $COND_OUT; echo x > $COND_OUT", ""),
+                "removed, sequential dependents": ("rm -rf $COND_OUT", ""),
+                "kept, but args.json is a directory": ("mkdir $COND_OUT/args.json #", ', args=["a", 1]'),
+                "kept, but options.json is a dangling link": ("ln -s /nonexistent-dir/x $COND_OUT/options.json #", ', options={"k": 1}')}
+    for name, (script, extra) in variants.items():
+        cond = 'run_experiment(name="e", run="%s"%s)\nrun_command(name="after", run="ls $COND_DEPS > $COND_OUT/seen", deps=[":e"])\n' % (script, extra)
         root = implrun.make_project({"COND": cond})
         res = implrun.run_cond(["run", "//:after"], root, timeout=60)
         chk.coverage["evaluations"] += 1
@@ -438,10 +442,13 @@ def task_removes_its_output(chk):
             d = os.path.join(root, "cond-out", "e.task.%d" % ts)
             if not os.path.isdir(d):
                 problems.append("version %d of %s is recorded but %s is not a directory" % (ts, tid, os.path.relpath(d, root)))
+            for rec, flag in (("args.json", "args="), ("options.json", "options=")):
+                if flag in extra and tid == "//:e" and not (os.path.isfile(os.path.join(d, rec)) and not os.path.islink(os.path.join(d, rec))):
+                    problems.append("version %d of %s is recorded but its %s record is not there (a %s)" % (ts, tid, rec, "directory" if os.path.isdir(os.path.join(d, rec)) else "dangling link or nothing"))
         if "Traceback" in text:
             problems.append("the run ended in a traceback: %r" % text.strip().splitlines()[-1][:200])
         for msg in problems:
-            chk.violation("impl-violation", "an experiment that exits 0 after its output directory was %s: %s" % (name.split(",")[0], msg),
+            chk.violation("impl-violation", "an experiment that exits 0 after its output directory was %s: %s" % (name, msg),
                           {"input": {"part": "own-output-removed", "variant": name, "cond": cond, "argv": ["run", "//:after"]},
                            "impl_observation": {"exit": res.code, "rows": [list(r) for r in rows], "output": text[-600:]}, "oracle_verdict": msg}, match_key={"part": "own-output-removed"}, size=1)
         if not problems:
